@@ -40,29 +40,35 @@ def Pos (M size P q Lb m idx u : ℕ) : Prop :=
 def Hit (M q L u0 u p : ℕ) : Prop := ∃ t, u0 ≤ t ∧ t < u ∧ Nat.Coprime t M ∧ q * t = numOf L p
 
 /-- what the proof needs to know about a step table -/
-structure TabOk (M size : ℕ) (tab : List (ℕ × ℕ × ℕ × ℕ)) : Prop where
+structure TabOk (M size K : ℕ) (tab : List (ℕ × ℕ × ℕ × ℕ)) : Prop where
   step : ∀ g < 8, ∀ j < size, ∀ P U, StepFacts M size g j P U (tab.getD (size * g + j) (0, 0, 0, 0))
   kpos : ∀ g < 8, ∀ j < size, 1 ≤ (tab.getD (size * g + j) (0, 0, 0, 0)).2.1
   wrap : wheelW M size = M + wheelW M 0
   cop : ∀ j < size, Nat.gcd (wheelW M j) M = 1
   size_pos : 0 < size
+  kc_le : ∀ g < 8, ∀ j < size, (tab.getD (size * g + j) (0, 0, 0, 0)).2.1 ≤ K ∧ (tab.getD (size * g + j) (0, 0, 0, 0)).2.2.1 ≤ K
 
 theorem k30_pos : ∀ g < 8, ∀ j < 8, 1 ≤ (expectedEntry 30 8 g j).2.1 := by decide +kernel
 theorem k210_pos : ∀ g < 8, ∀ j < 48, 1 ≤ (expectedEntry 210 48 g j).2.1 := by decide +kernel
+theorem kc30_le : ∀ g < 8, ∀ j < 8, (expectedEntry 30 8 g j).2.1 ≤ 6 ∧ (expectedEntry 30 8 g j).2.2.1 ≤ 6 := by decide +kernel
+theorem kc210_le : ∀ g < 8, ∀ j < 48, (expectedEntry 210 48 g j).2.1 ≤ 10 ∧ (expectedEntry 210 48 g j).2.2.1 ≤ 10 := by
+  decide +kernel
 
-theorem tabOk_small : TabOk 30 8 Gen.psSmallTab :=
+theorem tabOk_small : TabOk 30 8 6 Gen.psSmallTab :=
   ⟨fun g hg j hj P U => wheel30_step g j P U hg hj,
    fun g hg j hj => by rw [smallTab_getD g j hg hj]; exact k30_pos g hg j hj,
-   by decide +kernel, fun j hj => w30_coprime j (by omega), by decide⟩
+   by decide +kernel, fun j hj => w30_coprime j (by omega), by decide,
+   fun g hg j hj => by rw [smallTab_getD g j hg hj]; exact kc30_le g hg j hj⟩
 
-theorem tabOk_medium : TabOk 30 8 Gen.psMediumTab := by rw [Gen.psMediumTab_eq]; exact tabOk_small
+theorem tabOk_medium : TabOk 30 8 6 Gen.psMediumTab := by rw [Gen.psMediumTab_eq]; exact tabOk_small
 
-theorem tabOk_210 : TabOk 210 48 Gen.psWheel210 :=
+theorem tabOk_210 : TabOk 210 48 10 Gen.psWheel210 :=
   ⟨fun g hg j hj P U => wheel210_step g j P U hg hj,
    fun g hg j hj => by rw [wheel210_getD g j hg hj]; exact k210_pos g hg j hj,
-   by decide +kernel, fun j hj => w210_coprime j (by omega), by decide⟩
+   by decide +kernel, fun j hj => w210_coprime j (by omega), by decide,
+   fun g hg j hj => by rw [wheel210_getD g j hg hj]; exact kc210_le g hg j hj⟩
 
-theorem pos_coprime {M size P q Lb m idx u : ℕ} {tab} (ht : TabOk M size tab) (h : Pos M size P q Lb m idx u) :
+theorem pos_coprime {M size K P q Lb m idx u : ℕ} {tab} (ht : TabOk M size K tab) (h : Pos M size P q Lb m idx u) :
     Nat.Coprime u M := by
   obtain ⟨g, j, U, _, hj, _, hu, _, _⟩ := h
   subst hu
@@ -70,12 +76,12 @@ theorem pos_coprime {M size P q Lb m idx u : ℕ} {tab} (ht : TabOk M size tab) 
   rw [gcd_add_mul]; exact ht.cop j hj
 
 /-- one wheel step on the abstract state -/
-theorem pos_step {M size P q Lb m idx u : ℕ} {tab} (ht : TabOk M size tab) (h : Pos M size P q Lb m idx u) (hLb : 30 ∣ Lb)
+theorem pos_step {M size K P q Lb m idx u : ℕ} {tab} (ht : TabOk M size K tab) (h : Pos M size P q Lb m idx u) (hLb : 30 ∣ Lb)
     (Lseg base : ℕ) (hb : Lb = Lseg + 30 * base) :
     let e := tab.getD idx (0, 0, 0, 0)
     e.1 < 8 ∧ q * u = numOf Lseg (8 * (base + m) + e.1) ∧
     Pos M size P q Lb (m + P * e.2.1 + e.2.2.1) e.2.2.2 (u + e.2.1) ∧ 1 ≤ e.2.1 ∧
-    (∀ t, u < t → t < u + e.2.1 → ¬ Nat.Coprime t M) := by
+    (∀ t, u < t → t < u + e.2.1 → ¬ Nat.Coprime t M) ∧ e.2.1 ≤ K ∧ e.2.2.1 ≤ K := by
   obtain ⟨g, j, U, hg, hj, hq, hu, hidx, hbyte⟩ := h
   intro e
   have sf := ht.step g hg j hj P U
@@ -86,7 +92,7 @@ theorem pos_step {M size P q Lb m idx u : ℕ} {tab} (ht : TabOk M size tab) (h 
   obtain ⟨c, rfl⟩ := hLb
   have hdiv : 30 * c / 30 = c := by omega
   rw [hdiv] at hbyte
-  refine ⟨sf.bit_lt, ?_, ?_, ?_, ?_⟩
+  refine ⟨sf.bit_lt, ?_, ?_, ?_, ?_, ?_⟩
   · rw [numOf_byte _ _ _ sf.bit_lt]; rw [hbyte] at hnum; omega
   · have hbn := sf.byte_next
     rw [← hq, ← hu] at hbn
@@ -102,6 +108,7 @@ theorem pos_step {M size P q Lb m idx u : ℕ} {tab} (ht : TabOk M size tab) (h 
       · rw [hbn, hbyte, hdiv]; omega
   · rw [he]; exact ht.kpos g hg j hj
   · intro t h1 h2; rw [hu] at h1 h2; exact sf.none_between t h1 h2
+  · rw [he]; exact ht.kc_le g hg j hj
 
 theorem pos_shift {M size P q Lb m idx u n : ℕ} (h : Pos M size P q Lb m idx u) (hLb : 30 ∣ Lb) (hn : n ≤ m) :
     Pos M size P q (Lb + 30 * n) (m - n) idx u := by
@@ -113,7 +120,7 @@ theorem pos_shift {M size P q Lb m idx u n : ℕ} (h : Pos M size P q Lb m idx u
 /-- **the `switch` on one block** (`fast = false`: EratMedium, and EratSmall without its unrolled loops).
     From a correct wheel state it terminates, clears exactly the bits of the multiples `q·t`, `u ≤ t < u'`, `t` coprime to
     `M`, and returns the correct wheel state relative to the NEXT block; `q·u'` is the first such multiple beyond the block. -/
-theorem crossLoop_spec (tab : List (ℕ × ℕ × ℕ × ℕ)) (M size : ℕ) (ht : TabOk M size tab)
+theorem crossLoop_spec (tab : List (ℕ × ℕ × ℕ × ℕ)) (M size K : ℕ) (ht : TabOk M size K tab)
     (P q Lseg base n : ℕ) (hP : 1 ≤ P) (hL : 30 ∣ Lseg) :
     ∀ (fuel m idx : ℕ) (s : Bytes) (u : ℕ), Pos M size P q (Lseg + 30 * base) m idx u → n - m < fuel →
     ∃ u', u ≤ u' ∧
@@ -121,7 +128,9 @@ theorem crossLoop_spec (tab : List (ℕ × ℕ × ℕ × ℕ)) (M size : ℕ) (h
         (crossLoop tab false P base n fuel m idx s).2.1 u' ∧
       (∀ p, bitAt (crossLoop tab false P base n fuel m idx s).2.2 p = true ↔
         (bitAt s p = true ∧ ¬ Hit M q Lseg u u' p)) ∧
-      (crossLoop tab false P base n fuel m idx s).2.2.size = s.size := by
+      (crossLoop tab false P base n fuel m idx s).2.2.size = s.size ∧
+      ((crossLoop tab false P base n fuel m idx s).1 < P * K + K + 1 ∨
+        (n ≤ m ∧ (crossLoop tab false P base n fuel m idx s).1 = m - n)) := by
   have hLb : 30 ∣ Lseg + 30 * base := by omega
   intro fuel
   induction fuel with
@@ -132,19 +141,21 @@ theorem crossLoop_spec (tab : List (ℕ × ℕ × ℕ × ℕ)) (M size : ℕ) (h
     simp only [Bool.false_and, Bool.false_eq_true, if_false]
     by_cases hm : m ≥ n
     · simp only [hm, if_true]
-      refine ⟨u, le_refl u, pos_shift hpos hLb hm, ?_, ?_⟩
+      refine ⟨u, le_refl u, pos_shift hpos hLb hm, ?_, ?_, ?_⟩
       · intro p
         constructor
         · intro h; exact ⟨h, fun ⟨t, h1, h2, _⟩ => by omega⟩
         · intro h; exact h.1
       · first | rfl | trivial
+      · right; first | exact ⟨hm, rfl⟩ | trivial | simp [hm]
     · simp only [hm, if_false]
-      obtain ⟨hbit, hnum, hpos2, hk, hgap⟩ := pos_step ht hpos hLb Lseg base rfl
+      obtain ⟨hbit, hnum, hpos2, hk, hgap, hkle, hcle⟩ := pos_step ht hpos hLb Lseg base rfl
       set e := tab.getD idx (0, 0, 0, 0) with he
       have hk' : 1 ≤ P * e.2.1 := Nat.mul_pos (by omega) (by omega)
-      obtain ⟨u', hu', hp', hbits, hsz⟩ := ih (m + P * e.2.1 + e.2.2.1) e.2.2.2
+      obtain ⟨u', hu', hp', hbits, hsz, hbound⟩ := ih (m + P * e.2.1 + e.2.2.1) e.2.2.2
         (s.modify (base + m) (clearBit · e.1)) (u + e.2.1) hpos2 (by omega)
-      refine ⟨u', by omega, hp', ?_, by rw [hsz, Array.size_modify]⟩
+      have hmul : P * e.2.1 ≤ P * K := Nat.mul_le_mul_left P hkle
+      refine ⟨u', by omega, hp', ?_, by rw [hsz, Array.size_modify], by left; omega⟩
       intro p
       rw [hbits p, bitAt_clear s (base + m) e.1 p hbit]
       have hcop := pos_coprime ht hpos
